@@ -59,8 +59,8 @@ LEVEL_TEXT = (
     "interpretation of __init__ followed by any sequence of public calls over (protocol state, offset validity): the offset "
     "that reaches a search is 0 or a window computed by a failed search of the same pattern in the same state with no "
     "buffer prefix deleted since (the state assigned is read as the set of Enum members the expression can denote: member, conditional "
-    "expression, selection from a literal table, local, parameter of a setter helper, result of a helper; state tests may go through a local copy "
-    "of the state or a named constant set); (R1.3) abstract interpretation of MultiPartParser.parse and of the helpers / generators / nested "
+    "expression, selection from a literal table, local, parameter of a setter helper, result of a helper; the state attribute itself read in that very assignment - `self.state = X if c else self.state` - stands for no change; state tests may go through a local copy "
+    "of the state or a named constant set, or be a membership test in a literal table keyed by the members); (R1.3) abstract interpretation of MultiPartParser.parse and of the helpers / generators / nested "
     "functions it hands the decoder to, over the class of the value next_event() returned last: whenever the next chunk is fed and when parse "
     "returns that class is NeedData or Epilogue (every test on the event is evaluated for its meaning on the class: isinstance with a class, tuple, "
     "union or named constant, exact type, identity with the NEED_DATA constant, flags computed from such tests, predicates extracted into a helper; "
@@ -71,7 +71,7 @@ LEVEL_TEXT = (
     "(R1.4) in _parse_data every release of the whole buffer without a delimiter is guarded by `pending tail > T` with T >= "
     "the longest incomplete prefix of the delimiter language (folded from boundary_re) that is consistent with what the "
     "branch knows about the buffer; (R1.5) the position that guard measures from is not before the place where the last line break of the scanned region begins: the anchor helper "
-    "(method, static method or module function of one argument) is evaluated from its source on every argument of up to 6 bytes over CR, LF, the bytes it names and one byte that stands for "
+    "(method, static method or module function of one argument - or of the buffer and the start of the region to scan, read as `anchor(buffer[start:]) + start` once the table has confirmed that this is what it computes for every argument and start -) is evaluated from its source on every argument of up to 6 bytes over CR, LF, the bytes it names and one byte that stands for "
     "every other byte - constants are propagated through its statements with a closed set of pure operations on bytes, integers and lists, private helpers followed - so the verdict does not "
     "depend on how it is written (rindex + except, rfind, rpartition, slices and byte tests, index arithmetic, backward scans, loops over the line-break bytes, min/max or comparisons by hand); (R1.6) the hold-back scan starts no "
     "later than the delimiter search; (R1.7) on every return of _parse_data that continues the part (deleted prefix = hold-back position or whole "
@@ -80,7 +80,7 @@ LEVEL_TEXT = (
     "stays in the buffer to be read again as payload; (R1.8) every path through next_event from every protocol state is followed with the helpers "
     "that touch the state or the buffer inlined (protocol state concrete, locals symbolic, a condition over locals decided once per path so that "
     "`more = m is None`, `if m is not None` and `if more` agree; results unpacked from tuples, read back by index or from the fields of an event built on "
-    "the path; `while` loops unrolled up to a bound): on a path where the splitter call skipped a line break in front of the payload, either a prefix "
+    "the path; a flag read from a literal table indexed by the state is the entry of the current state; `while` loops unrolled up to a bound): on a path where the splitter call skipped a line break in front of the payload, either a prefix "
     "is deleted from the buffer afterwards and next_event ends in a state in which the splitter does not skip, or nothing is deleted and it ends in a state "
     "in which it skips - otherwise the next call skips a second line break (the payload's own) or reads the skipped one again as payload; whether a call "
     "skips must be decided by the protocol state (a skip that hangs on another flag stops with ANALYSIS-ERROR); (R1.10) for every hold-back position `anchor(region) + start of region` that _parse_data releases the buffer up to, "
@@ -88,14 +88,18 @@ LEVEL_TEXT = (
     "followed by bytes that are not line breaks, or a proper beginning of such a line break at the very end - the place where a delimiter whose rest has not arrived can begin - and nothing is added to the position beyond the start of the region; "
     "an anchor that overlooks a CR not followed by LF, the CR of a CR LF pair, or one of the line-break bytes fails for the order types concerned; (R1.11) premise, decided on the delimiter patterns compiled in __init__: two complete matches w and w + r "
     "of a delimiter that opens a part exist (the line-break alternatives CR and CR LF), so a chunk that ends after w makes the match end there and r arrives in front of the part headers; obligation: the expression that turns the head of the buffer "
-    "into an argument of a part-opening event (an event class without a bytes field; found by following the constructor argument back through plain local assignments and helper parameters to the prefix slice of the buffer) is evaluated in the same way "
-    "on representative header blocks (one and two headers, CR LF and bare LF line ends, a folded header) with and without r in front, and must give the same value (equal header lists; an opaque container is compared by its constructor arguments and the calls made on it): "
+    "into an argument of a part-opening event (an event class without a bytes field; found by following the constructor argument back through plain local assignments, helper parameters, the elements of a dict / tuple display and the one return value of a helper of the decoder "
+    "that reads the buffer itself, to the prefix slice of the buffer) is evaluated in the same way "
+    "on representative header blocks (one and two headers, CR LF and bare LF line ends, a folded header) with and without r in front, and must give the same value (equal header lists; an opaque container is compared by its constructor arguments and the calls made on it); "
+    "an argument that is computed from that value by further steps which cannot be evaluated (the Content-Disposition options, however they are obtained: `parse_options_header(headers[...])[1].get(...)`, a helper given the headers) is a function of it and is decided on "
+    "the outermost enclosing expression of the block that can be evaluated - same value there, same argument; arguments that share that expression are one instance; when only such an intermediate value differs and no event argument is that value itself, it stops with ANALYSIS-ERROR: "
     "empty lines have to be skipped, however that is written (test on the stripped line, `continue`, filter in a comprehension or generator helper, truth of `line.strip()`); when the value differs and the buffer is modified on a path to that expression, it stops with ANALYSIS-ERROR; (R1.9) in MultiPartParser.parse and the "
     "helpers it hands the decoder, the event or the payload to, every read of the bytes payload of the event class that carries the `more data` flag is "
     "followed (locals, bytes()/memoryview() copies, casts, byte-wise maps, conditional expressions, helper parameters, a collecting callable held in a "
     "local or passed as an argument) to where it is collected (append / write / extend / `+=` / stored): no method of the payload (decode, strip, replace, "
     "split, ...), slice or str(..., encoding) may be applied to the single piece on the way, because the pieces are cut where the read buffer ends; "
-    "a list the pieces are collected in is joined with an empty separator, its elements as they are (not decoded or otherwise transformed one by one); "
+    "a list the pieces are collected in is followed to its `.join(...)` (through local copies, casts, the parameter of a helper / module function / nested function it is passed as - by position or keyword, at any depth -, a closure) and is joined with an empty separator, its elements as they are "
+    "(copies - tuple / list / iter of the list, bytes() / memoryview().tobytes() of a piece, byte-wise maps - and dropping empty pieces change nothing; a method other than a query, or a slice, applied to each piece is a violation; any other per-piece expression or filter stops with ANALYSIS-ERROR); "
     "uses of the payload that are not understood stop with ANALYSIS-ERROR. A window assignment that sits in a private helper is read per call site with the helper's "
     "parameters replaced by the call's arguments, and a window position that a helper (method, static method or module function, up to three levels) returns "
     "is read through the helper in the same way (every return other than the constant 0 must denote the same `len(buffer) - K`; the buffer may be passed "
@@ -119,11 +123,11 @@ TRUSTED = [
     "re semantics: Pattern.search(buf, pos) finds the leftmost match starting at or after pos; a negative pos is clamped to 0",
     "bytes.rindex(c) is the last index of c and raises ValueError when absent; bytes.rfind(c) is the same index or -1 when absent; bytes.find returns -1 when absent",
     "the re engine run on a pattern folded from the source against prefixes enumerated from that same pattern",
-    "CPython semantics of the pure operations the table evaluation (R1.5, R1.10, R1.11) applies to constants: bytes / str rfind, rindex, find, rpartition, partition, split, splitlines, strip, decode, startswith, endswith, slices and indexing, comparisons, len / min / max / range, list append / extend; Pattern.sub / search of a module-level pattern folded from the source applied to a sample header block",
+    "CPython semantics of the pure operations the table evaluation (R1.5, R1.10, R1.11) applies to constants: bytes / str rfind, rindex, find, rpartition, partition, split, splitlines, strip, decode, startswith, endswith, slices and indexing, comparisons, len / min / max (also with default=) / sorted / range, list append / extend; Pattern.sub / search of a module-level pattern folded from the source applied to a sample header block",
 ]
 ASSUMPTIONS = [
-    "R1.5/R1.10: the hold-back anchor helper is decided on a table, not for every argument: all arguments of up to 6 bytes (5 when it names a further byte) over CR, LF, the bytes it names and one filler byte; its statements are evaluated with constants propagated through assignments, tests, loops, try/except, comprehensions and a closed set of pure builtins and bytes / list methods, private helpers of the package followed up to four levels; a construct outside that subset, an integer constant other than -2..2 and the codes of CR / LF (a possible length threshold the table does not reach), or a result outside -1 .. len(argument) stops R1.5-R1.7 and R1.10 with ANALYSIS-ERROR; the argument is taken as bytes (the decoder passes a bytearray slice, which answers the same operations); the closed form min/max of last-index terms is still derived (per order type of the last occurrences) where the helper has one, for the wording of the evidence only",
-    "R1.11: the header stage is evaluated on sample header blocks of the property's domain, with the same evaluator; a class of the package that is only constructed and filled (Headers) is opaque: compared by constructor arguments and recorded method calls; the rest of a line break is assumed to be dealt with in that stage - a decoder that removes it from the buffer beforehand is not modelled (ANALYSIS-ERROR when the buffer is modified on a path to the stage, silent otherwise only if the stage itself is indifferent to it)",
+    "R1.5/R1.10: the hold-back anchor helper is decided on a table, not for every argument: all arguments of up to 6 bytes (5 when it names a further byte) over CR, LF, the bytes it names and one filler byte; its statements are evaluated with constants propagated through assignments, tests, loops, try/except, comprehensions and a closed set of pure builtins and bytes / list methods, private helpers of the package followed up to four levels; a construct outside that subset, an integer constant other than -2..2 and the codes of CR / LF (a possible length threshold the table does not reach), or a result outside -1 .. len(argument) stops R1.5-R1.7 and R1.10 with ANALYSIS-ERROR; the argument is taken as bytes (the decoder passes a bytearray slice, which answers the same operations); an anchor that takes the buffer and the start of the region to scan is read as `anchor(buffer[start:]) + start` after that equality has been checked on every table argument and every start (otherwise ANALYSIS-ERROR); the closed form min/max of last-index terms is still derived (per order type of the last occurrences) where the helper has one, for the wording of the evidence only",
+    "R1.11: the header stage is evaluated on sample header blocks of the property's domain, with the same evaluator; steps applied to the value computed from the block that are not evaluated (functions of other modules, methods of an opaque object) are taken as deterministic - the same value in, the same value out - and must not read the receive buffer again (ANALYSIS-ERROR); a class of the package that is only constructed and filled (Headers) is opaque: compared by constructor arguments and recorded method calls; the rest of a line break is assumed to be dealt with in that stage - a decoder that removes it from the buffer beforehand is not modelled (ANALYSIS-ERROR when the buffer is modified on a path to the stage, silent otherwise only if the stage itself is indifferent to it)",
     "R1.3: the set of event classes is the subclasses (in the decoder's module) of the class named by next_event's return annotation; NeedData and Epilogue are the terminal ones (after them next_event produces nothing until more data arrives / ever); `event is NEED_DATA` is read as: an event of another class is not that constant, a NeedData event may or may not be; attributes of an event that are declared by an annotation are instance data and do not depend on its class",
     "R1.3: a use of the value of next_event() that is not followed (stored in an attribute or container, passed to code outside the package, a generator over the decoder driven by hand, the bound method handed to something other than iter(callable, CONSTANT)) makes the paths through it undecided: ANALYSIS-ERROR if such a path can leave the decoder undrained, never a violation",
     "delimiters carry no trailing blanks (the unbounded run [^\\S\\n\\r]* is taken as empty), as in the property's domain",
@@ -1021,10 +1025,25 @@ class Splitter:
             return None  # a global of the helper's module that a local of this function would capture
         return callee, body[0].value, binding
 
+    def _region_anchor(self, c: ast.AST) -> tuple[ast.AST, ast.AST] | None:
+        """a call of a hold-back anchor that is given the buffer and the start of the region to scan -> (buffer argument, start argument)"""
+        callee = self._anchor_call(c)
+        if callee is None or callee is self.fi or len(c.args) + len(c.keywords) != 2:  # type: ignore[attr-defined]
+            return None
+        tab = anchor_table(callee)
+        if tab is None or tab.start_param is None:
+            return None
+        binding = bind_args(callee, c)  # type: ignore[arg-type]
+        params = [p for p in callee.params if p not in ("self", "cls")]
+        if binding is None or set(binding) != set(params) or len(params) != 2:
+            return None
+        other = next(p for p in params if p != tab.start_param)
+        return binding[other], binding[tab.start_param]
+
     def inline(self, e: ast.AST | None, depth: int = 0) -> ast.AST | None:
         """replace calls of private helpers whose body is one `return <expression>` (and that are not themselves a hold-back
         anchor) by that expression with the arguments substituted: `self._hold(data, k)` -> `k + self.last_newline(data[k:])`"""
-        if e is None or depth > 2 or not any(isinstance(x, ast.Call) and self._inlinable(x) is not None for x in ast.walk(e)):
+        if e is None or depth > 2 or not any(isinstance(x, ast.Call) and (self._inlinable(x) is not None or self._region_anchor(x) is not None) for x in ast.walk(e)):
             return e
         sp = self
 
@@ -1034,6 +1053,11 @@ class Splitter:
         class T(ast.NodeTransformer):
             def visit_Call(self, c: ast.Call):  # noqa: N802
                 self.generic_visit(c)
+                reg = sp._region_anchor(c)
+                if reg is not None:  # anchor(data, k) -> anchor(data[k:]) + k (the table confirmed that reading)
+                    d_, k_ = fresh(reg[0]), reg[1]
+                    one = ast.Call(func=fresh(c.func), args=[ast.Subscript(value=d_, slice=ast.Slice(lower=fresh(k_), upper=None, step=None), ctx=ast.Load())], keywords=[])
+                    return ast.BinOp(left=one, op=ast.Add(), right=fresh(k_))
                 hit = sp._inlinable(c)
                 if hit is None:
                     return c
@@ -1856,6 +1880,7 @@ def header_stages(repo, roles: Roles, ts: Typestate) -> list[dict[str, t.Any]]:
                                 return walk(binding[x.id], g, gat, d + 1)
                     if isinstance(x, ast.Name):
                         return ast.Name(id=x.id, ctx=ast.Load())
+                    before = len(found)
                     new = x.__class__()
                     for f_, v_ in ast.iter_fields(x):
                         if isinstance(v_, ast.AST):
@@ -1864,13 +1889,25 @@ def header_stages(repo, roles: Roles, ts: Typestate) -> list[dict[str, t.Any]]:
                             setattr(new, f_, [walk(i_, fi, at, d) if isinstance(i_, ast.AST) else i_ for i_ in v_])
                         else:
                             setattr(new, f_, v_)
+                    if isinstance(x, ast.Call) and len(found) == before and d < 6:
+                        # a helper of the decoder that is not given the block but reads the buffer itself and returns what it made of
+                        # it (`headers = self._headers_up_to(match)`): its one return value stands for the call
+                        callee = ts._callee(fi, x)
+                        if callee is not None and callee is not fi and any(callee is f for f in funcs) and len(callers(callee)) == 1 \
+                                and not any(isinstance(y, (ast.Yield, ast.YieldFrom)) for y in walk_no_nested(callee.node)):
+                            rets = [r for r in walk_no_nested(callee.node) if isinstance(r, ast.Return)]
+                            rn = cfg_of(callee).node_of(rets[0]) if len(rets) == 1 and rets[0].value is not None else None
+                            if rn is not None:
+                                sub = walk(rets[0].value, callee, rn, d + 1)  # type: ignore[arg-type]
+                                if len(found) > before:
+                                    return sub
                     return new
 
                 e2 = ast.fix_missing_locations(ast.copy_location(walk(a, fi0, at0, 0), a))
                 if not found:
                     continue
                 sl = found[0][0].slice
-                if len(found) != 1 or sl.step is not None or sl.upper is None or not (sl.lower is None or (isinstance(sl.lower, ast.Constant) and sl.lower.value == 0)):  # type: ignore[union-attr]
+                if len({id(f_[0]) for f_ in found}) != 1 or sl.step is not None or sl.upper is None or not (sl.lower is None or (isinstance(sl.lower, ast.Constant) and sl.lower.value == 0)):  # type: ignore[union-attr]
                     raise AnalysisError(f"{fi0.loc(a)}: `{norm(a)}` of `{norm(c.func)}(...)` is computed from `{norm(found[0][0])}`, which is not one prefix of the receive buffer: not modelled")
                 out.setdefault(norm(e2), {"fi": found[0][1], "expr": e2, "node": found[0][2], "arg": found[0][0], "ctors": set()})["ctors"].add(c.func.id)
     if not out:
@@ -1913,30 +1950,97 @@ def rules_residue(ctx: Ctx, roles: Roles, pats: Patterns, folder: Folder) -> Non
     stages = header_stages(repo, roles, ts)
     ctx.floor("R1.11", "expressions that turn the head of the buffer into the headers of a part-opening event", len(stages), 1)
     me = MiniEval(repo, folder)
+    pairs = [(r, h) for r in sorted(left) for h in HEADER_BLOCKS]
 
-    def run(st: dict[str, t.Any], block: bytes) -> t.Any:
-        me.steps = 0
-        try:
-            return me.ev(st["expr"], {"self": SelfRef(roles.cls), BLOCK: block}, st["fi"], 0)
-        except _PyRaise as r:
-            return ("raises", r.names[0])
-        except _Unmodelled as e:
-            raise AnalysisError(f"{st['fi'].loc(st['arg'])}: cannot evaluate `{norm(st['expr'])}` on a sample header block ({e}): not modelled")
+    def table(expr: ast.AST, fi: FuncInfo) -> list[tuple[t.Any, t.Any]]:
+        """the expression on every sample block, without and with the rest in front (_Unmodelled when it cannot be evaluated)"""
+        out = []
+        for r, h in pairs:
+            row = []
+            for block in (h, r + h):
+                me.steps = 0
+                try:
+                    row.append(me.ev(expr, {"self": SelfRef(roles.cls), BLOCK: block}, fi, 0))
+                except _PyRaise as ex:
+                    row.append(("raises", ex.names[0]))
+            out.append((row[0], row[1]))
+        return out
 
+    def spine(expr: ast.AST) -> list[ast.AST]:
+        """the expressions that enclose the placeholder, outermost first (the placeholder itself excluded)"""
+        out: list[ast.AST] = []
+        cur: ast.AST | None = expr
+        while cur is not None and not (isinstance(cur, ast.Name) and cur.id == BLOCK):
+            if isinstance(cur, ast.expr):
+                out.append(cur)
+            inner = [ch for ch in ast.iter_child_nodes(cur) if has_block(ch)]
+            cur = inner[0] if len(inner) == 1 else None  # the block is read in two places: nothing smaller is a function of one value
+        return out
+
+    def has_block(x: ast.AST) -> bool:
+        return any(isinstance(y, ast.Name) and y.id == BLOCK for y in ast.walk(x))
+
+    # what has to be the same with and without the rest is the value the stage computes from the header block.  An argument of the
+    # event that is derived from that value by further steps (`parse_options_header(headers[...])[1].get("filename")`, a helper that
+    # picks the options out of the headers, ...) is a function of it: same headers, same argument - whatever those steps are and
+    # whether or not they can be evaluated here.  So each argument is reduced to the outermost enclosing expression of the block
+    # that can be evaluated (its core); arguments with the same core are one instance.
+    cores: dict[str, dict[str, t.Any]] = {}
+    whole: set[str] = set()
     for st in stages:
         fi = st["fi"]
         ctx.saw(fi)
+        # an argument that is a display (`Field(**{"headers": headers, "name": name})`, a tuple of values) hands its elements to the
+        # event as they are: each element computed from the block is a stage of its own
+        todo, exprs = [st["expr"]], []
+        while todo:
+            x = todo.pop(0)
+            if isinstance(x, (ast.Dict, ast.Tuple, ast.List, ast.Set, ast.Starred)):
+                todo += [ch for ch in ast.iter_child_nodes(x) if has_block(ch)]
+            else:
+                exprs.append(x)
+        for expr in exprs:
+            whole.add(norm(expr))
+            why = None
+            for x in spine(expr):
+                try:
+                    tab = table(x, fi)
+                except _Unmodelled as e:
+                    why = (x, e)  # the innermost failure is the one reported: it is the step that reads the block itself
+                    continue
+                if x is not expr:
+                    # the steps applied to the core must not look at the receive buffer again (they would see the rest too)
+                    inner = {id(y) for y in ast.walk(x)}
+                    again = [y for y in ast.walk(expr) if id(y) not in inner and isinstance(y, ast.Attribute) and attr_of(y, fi) == roles.buffer]
+                    if again:
+                        raise AnalysisError(f"{fi.loc(st['arg'])}: `{norm(expr)}` reads the receive buffer besides the header block `{norm(st['arg'])}`: not modelled")
+                c = cores.setdefault(norm(x), {"fi": fi, "expr": x, "node": st["node"], "arg": st["arg"], "ctors": set(), "tab": tab, "derived": []})
+                c["ctors"] |= st["ctors"]
+                if x is not expr:
+                    c["derived"].append(norm(expr))
+                break
+            else:
+                x, e = why if why is not None else (expr, "the block itself is handed on")
+                raise AnalysisError(f"{fi.loc(st['arg'])}: cannot evaluate `{norm(x)}` on a sample header block ({e}): not modelled")
+
+    undecided: list[str] = []
+    n_bad = 0
+    for key, st in sorted(cores.items()):
+        fi = st["fi"]
         diffs = []
-        n = 0
-        for r, (rx, w1, w2) in sorted(left.items()):
-            for h in HEADER_BLOCKS:
-                v0, v1 = run(st, h), run(st, r + h)
-                if isinstance(v0, tuple) and v0[:1] == ("raises",):
-                    raise AnalysisError(f"{fi.loc(st['arg'])}: `{norm(st['expr'])}` raises {v0[1]} on the well-formed header block {h!r}: not modelled")
-                n += 1
-                if not (v0 == v1):
-                    diffs.append((r, h, v0, v1, rx, w1, w2))
+        for (r, h), (v0, v1) in zip(pairs, st["tab"]):
+            if isinstance(v0, tuple) and v0[:1] == ("raises",):
+                raise AnalysisError(f"{fi.loc(st['arg'])}: `{norm(st['expr'])}` raises {v0[1]} on the well-formed header block {h!r}: not modelled")
+            if not (v0 == v1):
+                rx, w1, w2 = left[r]
+                diffs.append((r, h, v0, v1, rx, w1, w2))
         ok = not diffs
+        if not ok and key not in whole:
+            # an intermediate value differs, but what an event is given is computed from it by steps that are not followed: they may
+            # or may not remove the difference
+            undecided.append(f"{fi.loc(st['arg'])}: `{norm(st['expr'])}` differs with the rest of a line break in front of the header block, and what becomes of it in "
+                             f"`{st['derived'][0][:120]}` cannot be evaluated: not modelled")
+            continue
         if not ok:
             # is the rest removed somewhere else before this stage reads the buffer?
             cfg = cfg_of(fi)
@@ -1947,15 +2051,20 @@ def rules_residue(ctx: Ctx, roles: Roles, pats: Patterns, folder: Folder) -> Non
                         raise AnalysisError(f"{fi.loc(x)}: the buffer is modified on a path to `{norm(st['arg'])}`: whether that removes the rest of a line break is not modelled")
         r0, (rx0, w10, w20) = sorted(left.items())[0]
         fact = (f"both {w10!r} and {w20!r} are complete matches of `{rx0}` (boundary {pats.boundary(0)!r}): when a chunk ends between them the match ends early and {sorted(left)} arrive(s) in front of the part headers; "
-                f"`{norm(st['expr'])}` ({BLOCK} = the buffer up to the blank line) feeds {sorted(st['ctors'])}; evaluated on {n} (rest, header block) pairs: ")
+                f"`{norm(st['expr'])}` ({BLOCK} = the buffer up to the blank line) feeds {sorted(st['ctors'])}"
+                + (f" (also through {len(st['derived'])} argument(s) computed from it, e.g. `{st['derived'][0][:100]}`: a function of that value)" if st["derived"] else "")
+                + f"; evaluated on {len(pairs)} (rest, header block) pairs: ")
         if diffs:
             r, h, v0, v1, _, _, _ = diffs[0]
             fact += (f"for the block {h!r} it gives {v0!r}, with the rest {r!r} in front {v1!r}: the headers of the part depend on where the delimiter line was cut "
                      f"(the stage that follows a delimiter has to skip empty lines, because the delimiter pattern accepts a line break that is not complete)")
         else:
             fact += "the same value with and without the rest in front"
+        n_bad += 0 if ok else 1
         ctx.ob("R1.11", f"{fi.qualname}: the rest of a line break left in front of the part headers does not show in the headers", ok, fact, fi, st["arg"],
                f"line-break rest in front of the part headers ({'/'.join(sorted(st['ctors']))})")
+    if undecided and not n_bad:
+        raise AnalysisError(undecided[0])
 
 
 # ---------------------------------------------------------------------------
